@@ -261,7 +261,9 @@ func (hni *HyperNodesInfo) UpdateHyperNode(hn *topologyv1alpha1.HyperNode) error
 	// An entry that addChild created for a member it had not seen yet carries an empty
 	// spec and is in no tier set: the first real object for that name is a new HyperNode,
 	// not an update of the empty spec (which a tier-0 object without members would equal).
-	known := exists && old.HyperNode != nil && hni.hyperNodesSetByTier[old.tier].Has(name)
+	// The same holds for an entry whose deletion failed: an object for it means the HyperNode
+	// exists (again), so it is rebuilt like a new one and takes part in rebuilds again.
+	known := exists && old.HyperNode != nil && !old.isDeleting && hni.hyperNodesSetByTier[old.tier].Has(name)
 
 	specChanged := true
 	membersChanged := true
@@ -305,6 +307,7 @@ func (hni *HyperNodesInfo) UpdateHyperNode(hn *topologyv1alpha1.HyperNode) error
 		old.HyperNode = hn
 		old.tier = hn.Spec.Tier
 		old.tierName = hn.Spec.TierName
+		old.isDeleting = false
 	} else {
 		hni.hyperNodes[name] = NewHyperNodeInfo(hn)
 	}
